@@ -158,7 +158,8 @@ def run_generator_cases(ctx, n):
             o = {'k': 'asarray'}
         else:
             a0, a1 = rng.sample(range(len(shape)), 2)
-            o = {'k': 'matrix_at', 'I': [rng.randrange(m) for m in shape], 'axes': [a0, a1]}
+            o = {'k': 'matrix_at', 'I': [rng.randrange(m) for m in shape], 'axes': [a0, a1],
+                 'ikind': rng.choice(['list', 'tuple', 'ndarray', 'intp'])}
         cases.append({'X': X, 'o': o, 'multi': rng.random() < 0.3})
     res = yield ('gen', cases)
     if res is None:
@@ -188,7 +189,11 @@ def run_generator_cases(ctx, n):
                 bad = 'valid access raised %s: %s' % (r['status'], r.get('msg'))
             else:
                 got = arr(r['value'])
-                if got.shape != want.shape or not np.array_equal(got, want):
+                if r.get('index_unchanged') is False:
+                    bad = 'the index argument was changed in place'
+                elif r.get('second_equal') is False:
+                    bad = 'two evaluations of the same slice generator differ'
+                elif got.shape != want.shape or not np.array_equal(got, want):
                     bad = 'returned entries %s (shape %s) are not the wrapped entries %s (shape %s)' % (
                         got.ravel()[:6].tolist(), list(got.shape), want.ravel()[:6].tolist(), list(want.shape))
         except G.Expect as e:
@@ -219,6 +224,117 @@ def run_generator_cases(ctx, n):
             pass
     ctx.cov['input_distribution']['generator_accesses'] = dist
     coq_run(ctx, 'C18_gen', 'zcheck_gen', items, 'generator', per=150)
+
+
+# ---------------------------------------------------------------------------
+# histories on generator objects: several sibling slice generators built from ONE index object (list,
+# tuple, ndarray, list of numpy ints), evaluated in interleaved order; the caller's index objects must
+# never change and every evaluation must return the entries of the wrapped array
+# ---------------------------------------------------------------------------
+
+def run_genhist_cases(ctx, n):
+    rng = ctx.rng
+    cases, oracles = [], []
+    for _ in range(n):
+        d = rng.choice([3, 3, 3, 4])
+        shape = [rng.randint(2, 4) for _ in range(d)]
+        X = G.rint_full(rng, shape, -9, 9)
+        D = arr(X)
+        steps, exp = [], []
+        nidx = rng.randint(1, 2)
+        idxvals = []
+        for _i in range(nidx):
+            v = [rng.randrange(m) for m in shape]
+            idxvals.append(v)
+            steps.append({'s': 'index', 'kind': rng.choice(['list', 'list', 'tuple', 'ndarray', 'intp']), 'v': v})
+            exp.append(None)
+        gens = [D]          # what every generator must represent (fixed when it is created)
+        gshape = [list(shape)]
+        # siblings from the same index object
+        for _g in range(rng.randint(2, 4)):
+            i = rng.randrange(nidx)
+            a0, a1 = rng.sample(range(d), 2)
+            ix = list(idxvals[i])
+            ix[a0] = slice(None)
+            ix[a1] = slice(None)
+            M = D[tuple(ix)]
+            if a0 > a1:
+                M = M.T
+            steps.append({'s': 'matrix_at', 'gen': 0, 'idx': i, 'axes': [a0, a1]})
+            exp.append(('shape', list(M.shape)))
+            gens.append(M)
+        # interleaved evaluations: every generator at least twice, in random order
+        evals = [g for g in range(len(gens)) for _r in range(2)]
+        rng.shuffle(evals)
+        for g in evals:
+            M = gens[g]
+            c = rng.random()
+            if c < 0.5:
+                steps.append({'s': 'asarray', 'gen': g})
+                exp.append(('value', M))
+            elif c < 0.8:
+                I = G.gen_index(rng, list(M.shape))
+                try:
+                    want = np.asarray(G.o_getitem(M, I), dtype=float)
+                    steps.append({'s': 'get', 'gen': g, 'I': I})
+                    exp.append(('value', want))
+                except G.Expect:
+                    steps.append({'s': 'asarray', 'gen': g})
+                    exp.append(('value', M))
+            elif g == 0:
+                i = rng.randrange(nidx)
+                steps.append({'s': 'entry', 'gen': 0, 'idx': i})
+                exp.append(('value', np.asarray(D[tuple(idxvals[i])])))
+            else:
+                steps.append({'s': 'asarray', 'gen': g})
+                exp.append(('value', M))
+        cases.append({'X': X, 'multi': rng.random() < 0.3, 'steps': steps})
+        oracles.append((exp, idxvals))
+    res = yield ('genhist', cases)
+    if res is None:
+        return
+    items = []
+    nsteps = 0
+    for c, (exp, idxvals), steps in zip(cases, oracles, res):
+        kinds = '+'.join(sorted({st['kind'] for st in c['steps'] if st['s'] == 'index'}))
+        for j, (st, ex, r) in enumerate(zip(c['steps'], exp, steps)):
+            nsteps += 1
+            ctx.count(('genhist', repr(c['X']), repr(c['steps'][:j + 1])), nontrivial=True)
+            bad = None
+            if r['status'] != 'Ok':
+                bad = ('raises', '%s raised %s: %s' % (st['s'], r['status'], r.get('msg')))
+            elif r['idxobjs'] != idxvals[:len(r['idxobjs'])]:
+                bad = ('mutates-index-argument', 'after %s the caller\'s index objects are %s, they were created as %s' % (
+                    st['s'], r['idxobjs'], idxvals[:len(r['idxobjs'])]))
+            elif not r.get('array_unchanged', True):
+                bad = ('mutates-array', 'the wrapped array was changed')
+            elif ex is not None and ex[0] == 'shape' and r.get('shape') != ex[1]:
+                bad = ('shape', 'matrix_at generator has shape %s, the slice has %s' % (r.get('shape'), ex[1]))
+            elif ex is not None and ex[0] == 'value':
+                got = arr(r['value'])
+                want = np.asarray(ex[1], dtype=float)
+                if got.shape != want.shape or not np.array_equal(got, want):
+                    bad = ('value', '%s of generator #%d (history of %d steps on sibling generators sharing one index '
+                           'object) returns %s, the wrapped array has %s' % (st['s'], st['gen'], j, got.ravel()[:6].tolist(),
+                                                                            want.ravel()[:6].tolist()))
+            replay = {'mode': 'genhist', 'case': {'X': c['X'], 'multi': c['multi'], 'steps': c['steps'][:j + 1]},
+                      'failing_step': j, 'impl': r,
+                      'how': 'TensorGenerator history: index objects, matrix_at siblings, interleaved evaluations'}
+            if bad:
+                ctx.report('impl:generator-history:%s:%s' % (bad[0], kinds), bad[1], replay)
+                break
+            # the model (pure gen_matrix_at) on the evaluated first-level slices
+            if st['s'] == 'asarray' and st['gen'] > 0 and r['status'] == 'Ok':
+                ms = [s_ for s_ in c['steps'] if s_['s'] == 'matrix_at'][st['gen'] - 1]
+                try:
+                    items.append(('((%s, %s), (GMatrixAt %s %d %d), OkF %s %s)' % (
+                        CQ.c_shape(c['X']['sh']), clist(c['X']['d'], CQ.zi), clist(idxvals[ms['idx']], cnat),
+                        ms['axes'][0], ms['axes'][1], CQ.c_shape(r['value']['sh']), clist(r['value']['d'], CQ.zi)),
+                        replay, 'matrix_at', None))
+                except CQ.NotExact:
+                    pass
+    ctx.cov['input_distribution']['generator_histories'] = {'histories': len(cases), 'steps': nsteps}
+    coq_run(ctx, 'C18_genhist', 'zcheck_gen', items, 'generator-history', per=150)
 
 
 # ---------------------------------------------------------------------------
